@@ -386,6 +386,12 @@ func (jp *jobProvider) refreshFile(stat os.FileInfo, filename string, symlink st
 		return
 	}
 
+	// the name may point to another file by now (rotation between stat and open):
+	// the job must be identified by the file that was actually opened.
+	if openedStat, err := file.Stat(); err == nil {
+		stat = openedStat
+	}
+
 	jp.addJob(file, stat, filename, symlink)
 }
 
